@@ -4,7 +4,7 @@ Require Extraction.
 Require Import ExtrOcamlBasic.
 From MRL Require Import Bytes Crc Params Names Frame Record Mem Rolling Log Driver.
 Extraction Language OCaml.
-Extraction "model.ml"
+Extraction "model.ml" Bytes.takeN Bytes.write_at Bytes.zerosN
   Bytes.lenN Bytes.bytes_ltb Bytes.b2n Bytes.n2b
   Crc.crc32 Params.mkParams Names.filename Names.filename_to_position
   Record.entry_deser Record.entry_ser
